@@ -118,6 +118,12 @@ package provider
 //@ pure redirectQuery(resp, relay, sigAlg, sig) = sigAlg != "" ? rq3(resp, relay, sig) + ("&SigAlg=" + urlEsc(sigAlg)) : rq3(resp, relay, sig)
 //@ pure sentRedirect(acs, relay, sigAlg, sig) = emitKind == 2 && emitCode == 302 &&
 //@             emitStr == acs + "?" + redirectQuery(b64enc(deflate(msgBytes())), relay, sigAlg, sig)
+//@ pure succ() = !httpError() && statusOf() == StatusCodeSuccess
+//@ pure asrt() = respMsg().Assertion
+//@ pure scd() = asrt().Subject.SubjectConfirmation[0].SubjectConfirmationData
+//@ pure endpointAbs(e, host) = e.url != "" ? e.url : trimSuffix(host, "/") + ("/" + trimPrefix(e.path, "/"))
+//@ pure idpEntityID(p, r) = endpointAbs(p.metadataEndpoint, issuerOfCtx(ctxOf(r)))
+//@ pure storedBindingSupported() = arBinding(arReq) == PostBinding || arBinding(arReq) == RedirectBinding
 //@ pure carriesNoUserData() = respMsg().Assertion.Subject == nil && len(respMsg().Assertion.AttributeStatement) == 0 &&
 //@             respMsg().Assertion.Signature == nil && respMsg().Signature == nil && len(respMsg().Assertion.AuthnStatement) == 0
 //@
@@ -136,6 +142,43 @@ package provider
 //@             (emitKind == 2 ==> sentRedirect(arAcsURL(arReq), arRelayState(arReq), "", ""))
 //@   ensures C10.fault-means-error-reply: faulted ==> (httpError() && emitCode >= 500) || statusOf() != StatusCodeSuccess
 //@   canary C01.canary-always-success: !httpError() ==> statusOf() == StatusCodeSuccess
+//@   canary C01,C03,C04.canary-never-success: !succ()
+//@   ## C03: field-for-field binding of a Success reply to the stored request (arReq), its application's entity and the user record
+//@   ensures C03.request-lookup-by-caller-id: succ() ==> arKey == valuesGet(r.Form, "id") && arLookups == old(arLookups) + 1
+//@   ensures C03.in-response-to: succ() ==> respMsg().InResponseTo == arAuthRequestID(arReq) && asrt().Subject != nil &&
+//@             len(asrt().Subject.SubjectConfirmation) == 1 && scd() != nil && scd().InResponseTo == arAuthRequestID(arReq)
+//@   ensures C02,C03.destination-is-recipient-is-stored-acs: succ() ==> respMsg().Destination == arAcsURL(arReq) && scd().Recipient == arAcsURL(arReq)
+//@   ensures C03,C11.issuer-is-idp-entity-id: !httpError() ==> respMsg().Issuer != nil && respMsg().Issuer.Text == idpEntityID(p, r) &&
+//@             (succ() ==> asrt().Issuer.Text == idpEntityID(p, r))
+//@   ensures C03.audience-is-entity-of-application: succ() ==> appKey == arAppID(arReq) && asrt().Conditions != nil &&
+//@             len(asrt().Conditions.AudienceRestriction) == 1 && len(asrt().Conditions.AudienceRestriction[0].Audience) == 1 &&
+//@             asrt().Conditions.AudienceRestriction[0].Audience[0] == appEntity
+//@   ensures C03.user-record-of-request: succ() ==> uiApp == arAppID(arReq) && uiUser == arUserID(arReq) && asrt().Subject.NameID != nil &&
+//@             asrt().Subject.NameID.Text == as(uiObj, "provider.Attributes").username
+//@   ensures C03.one-clock-reading: succ() ==> nowCalls == old(nowCalls) + 1 && clock >= old(clock) &&
+//@             respMsg().IssueInstant == timefmt(clock, p.TimeFormat) && asrt().IssueInstant == timefmt(clock, p.TimeFormat) &&
+//@             asrt().Conditions.NotBefore == timefmt(clock, p.TimeFormat) &&
+//@             asrt().Conditions.NotOnOrAfter == timefmt(clock + p.Expiration, p.TimeFormat) && scd().NotOnOrAfter == timefmt(clock + p.Expiration, p.TimeFormat)
+//@   ensures C03,C15.fresh-distinct-ids: succ() ==> idIndex(respMsg().Id) >= old(idCount) && idIndex(asrt().Id) >= old(idCount) && respMsg().Id != asrt().Id &&
+//@             respMsg().Id == idOf(idIndex(respMsg().Id)) && asrt().Id == idOf(idIndex(asrt().Id))
+//@   ensures C03.rest-of-the-view: succ() ==> respMsg().Version == "2.0" && asrt().Version == "2.0" && respMsg().Status.StatusMessage == "" && respMsg().Signature == nil &&
+//@             len(asrt().AuthnStatement) == 1 && asrt().AuthnStatement[0].AuthnInstant == asrt().IssueInstant && asrt().AuthnStatement[0].SessionIndex == asrt().Id &&
+//@             len(asrt().AttributeStatement) == 1
+//@   ## C04 (IdP side): what is signed is what is sent, and no Success assertion leaves unsigned
+//@   ensures C04.success-in-form-or-body-has-enveloped-signature-over-the-assertion-sent: succ() && emitKind != 2 && storedBindingSupported() ==>
+//@             asrt().Signature != nil && signCount == old(signCount) + 1 && signedTag == typetag("saml.AssertionType") && encVer == signedVer + 1 &&
+//@             eqExcept(as(signedBox, "saml.AssertionType"), asrt(), "Signature") && as(signedBox, "saml.AssertionType").Signature == nil
+//@   ensures C04.enveloped-signature-copied-unchanged: succ() && emitKind != 2 && storedBindingSupported() ==>
+//@             sigOver(signedBy, signedTag, signedBox) == signedRes &&
+//@             asrt().Signature.SignatureValue.Text == as(signedRes, "xmlsig.Signature").SignatureValue &&
+//@             len(asrt().Signature.SignedInfo.Reference) == 1 &&
+//@             asrt().Signature.SignedInfo.Reference[0].URI == as(signedRes, "xmlsig.Signature").SignedInfo.Reference.URI &&
+//@             asrt().Signature.SignedInfo.SignatureMethod.Algorithm == as(signedRes, "xmlsig.Signature").SignedInfo.SignatureMethod.Algorithm
+//@   ensures C04.redirect-signature-is-over-the-parameters-sent: succ() && emitKind == 2 ==> signStrCount == old(signStrCount) + 1 &&
+//@             sentRedirect(arAcsURL(arReq), arRelayState(arReq), p.conf.SignatureAlgorithm,
+//@               b64enc(signStr(signCtx, redirectQuery(b64enc(deflate(msgBytes())), arRelayState(arReq), p.conf.SignatureAlgorithm, ""))))
+//@   ensures C04.redirect-only-for-redirect-binding-with-consumer-url: succ() && emitKind == 2 ==> arBinding(arReq) == RedirectBinding && arAcsURL(arReq) != ""
+//@
 //@ func (*provider.IdentityProvider).ssoHandleFunc
 //@   inline
 //@   property C09
